@@ -706,7 +706,7 @@ Proof.
   { rewrite !map_map. reflexivity. }
   rewrite E2. clear E2. rewrite G_set_retx.
   split; cbn [fst snd]; [|reflexivity].
-  destruct out; cbn [map]; (apply (trel_intro_eq g1); [reflexivity|]); revert Hv1; apply RV_eq; reflexivity.
+  destruct (map t_seg (filter t_needs (retx t1))); cbn [map]; (apply (trel_intro_eq g1); [reflexivity|]); revert Hv1; apply RV_eq; reflexivity.
 Qed.
 
 End Ops.
